@@ -6,6 +6,10 @@ HERE = os.path.dirname(os.path.dirname(os.path.abspath(__file__)))
 TECH = 'weakest-precondition VCs over go/ssa of the real functions + contracts in //@ comments, discharged by z3/cvc5'
 TRUST = "Trusted: go/ssa lowering and the engine's SSA->SMT translation; solver soundness; the assumed contracts of external/interface functions listed in the evidence (io.Reader/net.Conn, bytes.Buffer, strconv, errors/fmt, go-tracing, handler interfaces). Sequential semantics only."
 CLAIMED = {
+ "C01": ("Frame level, for all payload bytes and lengths: RESPBytes is proved to emit exactly the canonical encoding predicates encLine / encBulk / encNull (type byte, payload copied byte for byte - every byte value, CR, LF, NUL and type characters included for bulk payloads - decimal length prefix equal to the payload length, CRLF terminators) and '*' count CRLF for arrays; Parser.Next is proved to return, for the bytes actually in the stream (ghost S_in, first-CR function S_cr), a message whose type is the type byte, whose line text / bulk payload equals the stream bytes, whose bulk length is atoi of the header line, and whose array has atoi(header) elements occupying contiguous extents (ghost D_lo/D_hi: element k+1 starts where element k ended, the array ends where its last element ends). Round-trip lemmas (clients of Next verified against its contract only): if the stream holds encLine/encBulk/encNull of m then Next returns a message of the same type with string(bytes) equal and consumes exactly the encoding; two values in sequence are returned in order with nothing swallowed or left. Constructors: NewIntegerMessage(v).Integer() == v, NewStringMessage/NewBulkMessage(s).String() == s, NewOKMessage, NewNilMessage().IsNil(), NewFloatMessage(v) parses back to v for finite v, NewStringArrayMessage(strs) yields strs[k] at position k.",
+         TRUST + " Nesting: the statement for whole trees is the induction over nesting depth whose step is the discharged one-level obligation (every element of an array is itself a value returned by Next under the same contract and is never written afterwards - frame obligations); the induction itself is not an obligation. Array.RESPBytes: header, non-nil elements and framing are proved, 'the body is the in-order concatenation of the elements' encodings' is NOT (no ghost names the callee's outputs). Line payloads with CR/LF are replaced by spaces on output (C04), so the line round trip requires noCRLF. ASSUMED: strconv (atoi(itoa(v)) == v, itoa digits, FormatFloat/ParseFloat shortest round trip), bytes.Buffer.", TECH, "DESIGN.md §16.7"),
+ "C02": ("Every parser contract is stated over the ghost stream (S_in, S_pos, S_end) and the reader contract leaves the size of each Read unconstrained in 1..len(p): the discharged obligations therefore hold for every chunking, down to single bytes and splits inside length prefixes, between CR and LF and inside payloads. Proved: each value consumes exactly its own bytes (S_pos afterwards is afterLine / payload end / end of the last element; extents of consecutive array elements are contiguous); completeness - a stream position that holds a line value, a null bulk, or a complete bulk (length prefix, payload, CRLF all delivered) makes Next succeed, an array succeeds unless its header is malformed/too large or a nested Next fails (ghost failure counter), and at end of stream Next reports (nil, nil); two encoded values in sequence are returned in order (lemma client); receive feeds handleMessage exactly the values Next returns.",
+         TRUST + " The transport is modelled as a reader that returns 1..len(p) bytes or io.EOF at the end of the stream; readers that return (0, nil) or transient errors are outside the model. Whole-tree statement by the same induction as C01.", TECH, "DESIGN.md §16.7"),
  "C03": ("receive is proved to keep 'replies == requests' (ghost counters: frames written by responseMessage vs. values returned by the parser) at the loop head - the only place it reads from the transport - and at every return (QUIT, end of stream, parser error); responseMessage writes exactly one frame on every path; every loop of every executor and argument reader has a discharged termination measure (the ZADD option loop included); all for arbitrary requests, chunkings and handler results.",
          TRUST + " Not decided: a client that stops reading (blocking Write) and TCP back-pressure.", TECH, "DESIGN.md §9 C03"),
  "C04": ("The only Write to the client is in responseMessage and its argument is proved to be the RESPBytes output of a non-nil message (also for nil replies and for replies that cannot be serialized); RESPBytes is proved to produce a type byte, no CR/LF inside simple-string/error/integer text for ANY payload bytes, and a CRLF terminator; bulk frames carry decimal(len) CRLF payload CRLF with the payload copied byte for byte; array frames start with '*' decimal(count) CRLF and end with a CRLF.",
@@ -73,7 +77,7 @@ def main():
         "setup_cmd": "cd /verif/engine && GOFLAGS=-mod=mod GOPROXY=off GOSUMDB=off GOTOOLCHAIN=local go build -o ../bin/govc ./cmd/govc",
         "hooks": {
             "guard": "verif",
-            "enable": "go build tag 'verif' (-tags verif): enables only comment-only contract files /repo/**/contracts_verif.go; no executable hook exists",
+            "enable": "go build tag 'verif' (-tags verif): enables the comment-only contract files /repo/**/contracts*_verif.go and the lemma clients /repo/redis/proto/lemmas_verif.go, /repo/redis/lemmas_verif.go (small functions that are never called; they exist so that round-trip lemmas are checked against the contracts of the real functions). Nothing is instrumented.",
             "baseline_off_cmd": "cd /repo && GOFLAGS= GOPROXY=off GOSUMDB=off GOTOOLCHAIN=local go test -mod=readonly -json -vet=off -count=1 -timeout 25m ./...",
             "source_commits": hook_commits,
             "add_only": True,
